@@ -33,6 +33,7 @@ def _cell():
 
 
 _PARSER = []
+_EVENTS = []
 
 
 def _parser():
@@ -41,8 +42,8 @@ def _parser():
         common.load_repo()
         import hotxlfp
         p = hotxlfp.Parser()
-        p.on('callCellValue', lambda label, row, col, done: done(1))
-        p.on('callRangeValue', lambda start, end, done: done([[1, 2], [3, 4]]))
+        p.on('callCellValue', lambda cell, done: (_EVENTS.append(cell.label), done(1)))
+        p.on('callRangeValue', lambda start, end, done: (_EVENTS.append(start.label + ':' + end.label), done([[1, 2], [3, 4]])))
         _PARSER.append(p)
     return _PARSER[0]
 
@@ -161,6 +162,22 @@ def cases(rng, ctx):
         out.append({'kind': 'label', 's': sp(rng.choice([a, b])), 'pre': pre})
     out.append({'kind': 'label', 's': '$B$9', 'pre': ['SUM(D$3:$B$9)']})
     out.append({'kind': 'label', 's': 'A2', 'pre': ['SUM(C7:A2)', 'C7']})
+    # references as the evaluator sees them: a whole formula that is one label raises exactly one cell event with that
+    # label; a string that only LOOKS like a label after case mapping (dotless i, long s, Kelvin sign, sharp s, ligatures in
+    # the letters part) is no cell reference and raises no cell or range event
+    special = 'ıſ\u212aßﬁﬆİ'
+    for _ in range(300 * scale * (5 if thorough else 1)):
+        n = rng.choice([0, 0, 1, 2])
+        m = rng.choice([0, 1, 1, 2])
+        letters = ''.join(rng.choice(string.ascii_letters) for _ in range(n)) + rng.choice(special) + \
+            ''.join(rng.choice(string.ascii_letters) for _ in range(m))
+        row = str(rng.randrange(1, 2000))
+        out.append({'kind': 'formula', 's': rng.choice(['', '$']) + letters + rng.choice(['', '$']) + row})
+        if rng.random() < 0.3:
+            out.append({'kind': 'formula', 's': out[-1]['s'] + ':' + rng.choice(['A1', out[-1]['s']])})
+    for _ in range(150 * scale):
+        col = ''.join(rng.choice(string.ascii_letters) for _ in range(rng.choice([1, 2, 3])))
+        out.append({'kind': 'formula', 's': rng.choice(['', '$']) + col + rng.choice(['', '$']) + str(rng.randrange(1, 5000))})
     # non-labels
     # (ß ı ſ ﬁ ﬆ: characters that str.upper() turns into ASCII letters; K: the Kelvin sign, which str.lower() turns into k)
     junk_alphabet = 'Aa1$ -_.:\n\t١éАßıſﬁﬆ\u212a'
@@ -188,7 +205,7 @@ def request(c):
         return 'cell.row2idx ' + enc_str(c['s'])
     if k == 'label':
         return 'cell.extract ' + enc_str(c['s'])
-    return None
+    return None          # 'formula': oracle only
 
 
 def _pl(p):
@@ -206,6 +223,11 @@ def impl(c):
         return str(cell.row_label_to_index(str(c['n'])))
     if k == 'rowlabel':
         return str(cell.row_label_to_index(c['s']))
+    if k == 'formula':
+        p = _parser()
+        del _EVENTS[:]
+        p.parse(c['s'])
+        return 'events %s' % ' '.join(enc_str(e) for e in _EVENTS)
     if k == 'label':
         if c.get('pre'):
             p = _parser()
@@ -256,6 +278,16 @@ def oracle(c, impl_ans):
             return 'row_index_to_label(%d) = %r' % (n - 1, cell.row_index_to_label(n - 1))
         return None
     if k == 'rowlabel':
+        return None
+    if k == 'formula':
+        ev = [common.dec_str(t) for t in impl_ans.split(' ')[1:] if t]
+        f = c['s']
+        if all(ord(ch) < 128 for ch in f):
+            if label_shaped(f) and ev != [f.upper()]:
+                return 'the formula %r is one cell label, the cell events raised are %r' % (f, ev)
+            return None
+        if ev:
+            return 'the formula %r holds no cell label (its letters part is not ASCII letters), yet cell/range events %r were raised' % (f, ev)
         return None
     if k == 'label':
         s = c['s']
